@@ -618,6 +618,116 @@ theorem setGeometry_linkExt (st : St) (c : ObjId) (g : HS) : LinkExt st (setGeom
     dsimp only at hs ⊢
     exact hs.linkExt.trans (linkExt_updCell st1 c _ (fun x => x))
 
+theorem setGeometry_pExt (st : St) (c : ObjId) (g : HS) : PExt st (setGeometry st c g).1 := by
+  simp only [setGeometry]
+  have hs := (addChildren_spec st c g).1
+  generalize addChildren st c g = r at hs ⊢
+  obtain ⟨st1, e⟩ := r
+  cases e with
+  | some err => exact hs.pExt
+  | none =>
+    dsimp only at hs ⊢
+    exact hs.pExt.trans (pExt_updGeom st1 c _)
+
+/-- the five geometry edits only register dividers and store geometries -/
+theorem geo_pExt (st : St) (op : Op)
+    (hop : match op with
+      | .setGeometry .. | .iopCell .. | .iopAlias .. | .setDivider .. | .setChild .. => True
+      | _ => False) : PExt st (step st op).1 := by
+  cases op with
+  | setGeometry c g => exact setGeometry_pExt st c g
+  | iopCell u c other =>
+    simp only [step, iopCell]
+    split
+    · exact PExt.refl st
+    · rename_i g hg
+      have hs := iop_pExt u other g st
+      generalize iop u st g other = res at hs ⊢
+      obtain ⟨⟨st1, e1⟩, g1, ret⟩ := res
+      cases e1 with
+      | some err => (try dsimp only at *); exact hs.trans (pExt_updGeom st1 c _)
+      | none =>
+        dsimp only at hs ⊢
+        exact (hs.trans (pExt_updGeom st1 c _)).trans (setGeometry_pExt _ c _)
+  | iopAlias u c other =>
+    simp only [step, iopAlias]
+    split
+    · exact PExt.refl st
+    · rename_i g hg
+      have hs := iop_pExt u other g st
+      generalize iop u st g other = res at hs ⊢
+      obtain ⟨⟨st1, e1⟩, g1, ret⟩ := res
+      (try dsimp only at *); exact hs.trans (pExt_updGeom st1 c _)
+  | setDivider c path ic d =>
+    simp only [step, setDivider]
+    split
+    · exact PExt.refl st
+    · split
+      · rename_i ic0 d0 side p hget
+        split
+        · exact PExt.refl st
+        · have hr : PExt st (registerDivider st p ic0 d).1 := by
+            unfold registerDivider
+            cases p with
+            | none => exact PExt.refl st
+            | some c' =>
+              simp only
+              split
+              · split
+                · exact PExt.refl st
+                · exact (cellCompAppend_spec st c' d).1.pExt
+              · split
+                · exact PExt.refl st
+                · exact (cellSurfAppend_spec st c' d).1.pExt
+          generalize registerDivider st p ic0 d = r at hr ⊢
+          obtain ⟨st1, e1⟩ := r
+          cases e1 with
+          | some err => (try dsimp only at *); exact hr
+          | none =>
+            simp only [replaceDivider]
+            split
+            · (try dsimp only at *); exact hr.trans (pExt_updGeom st1 c _)
+            · (try dsimp only at *); exact hr
+      · exact PExt.refl st
+  | setChild c path right new =>
+    simp only [step, setChild]
+    have hlc : ∀ p, PExt st (linkChild st p new).1.1 := by
+      intro p
+      cases p with
+      | none => exact PExt.refl st
+      | some c' => exact (linkChild_spec st c' new).1.pExt
+    split
+    · exact PExt.refl st
+    · split
+      · rename_i u l r p hget
+        have := hlc p
+        generalize linkChild st p new = lres at this ⊢
+        obtain ⟨⟨st1, e1⟩, n'⟩ := lres
+        cases e1 with
+        | some err => (try dsimp only at *); exact this
+        | none => (try dsimp only at *); exact this.trans (pExt_updGeom st1 c _)
+      · rename_i l p hget
+        split
+        · exact PExt.refl st
+        · have := hlc p
+          generalize linkChild st p new = lres at this ⊢
+          obtain ⟨⟨st1, e1⟩, n'⟩ := lres
+          cases e1 with
+          | some err => (try dsimp only at *); exact this
+          | none => (try dsimp only at *); exact this.trans (pExt_updGeom st1 c _)
+      · exact PExt.refl st
+  | reupdate => exact hop.elim
+  | setMaterial c m => exact hop.elim
+  | setUniverse c u => exact hop.elim
+  | claim u cs => exact hop.elim
+  | setFill c u => exact hop.elim
+  | setNumber k o n => exact hop.elim
+  | append k o => exact hop.elim
+  | remove k o => exact hop.elim
+  | setMaterials ms => exact hop.elim
+  | setCells cs => exact hop.elim
+  | addCellChildren => exact hop.elim
+
 /-- **C16_linked_step** — every edit keeps "members are linked", also when it raises: collection
     insertion links the new member, the repaired `materials` setter and `add_cell_children_to_problem` link
     every member of the collections they install, nothing ever clears a `_problem` pointer. -/
@@ -1035,5 +1145,236 @@ example :
     let st := run (demo false) [.append .cell 0, .setGeometry 0 (.leaf false 1 true none), .setMaterial 0 (some 2)]
     (addCellChildren st).2 = none ∧ (addCellChildren st).1.surfaces = [1] ∧ (addCellChildren st).1.dataM = [2] ∧
     (addCellChildren st).1.slink 1 = true ∧ (addCellChildren st).1.mlink 2 = true := by decide
+
+/-! ## the whole-history invariant -/
+
+/-- what cell `d` points at is linked to the problem: its containers' collections, every surface it holds,
+    its material, its universe -/
+def GoodCell (st : St) (d : ObjId) : Prop :=
+  (st.cellOf d).contLinked = true ∧ (∀ s ∈ (st.cellOf d).surfs, st.slink s = true) ∧
+  (∀ m, (st.cellOf d).mat = some m → st.mlink m = true) ∧ (∀ u, (st.cellOf d).univ = some u → st.ulink u = true)
+
+/-- the invariant of every reachable state: containment for every cell object, members of the five collections
+    linked, and whatever a cell *of the problem* points at linked (so that the reverse look-ups see the cell) -/
+structure Reach (st : St) : Prop where
+  contain : InvContain st
+  linked : InvLinked st
+  good : ∀ d ∈ st.cells, GoodCell st d
+
+theorem GoodCell.pExt {st st' : St} {d : ObjId} (h : GoodCell st d) (e : PExt st st') : GoodCell st' d := by
+  obtain ⟨hc, hs, hm, hu⟩ := h
+  refine ⟨e.cont d hc, fun s hs' => ?_, fun m hm' => ?_, fun u hu' => ?_⟩
+  · rcases e.newSurf d s hs' with h1 | h1
+    · exact e.linked .surface s (hs s h1)
+    · exact h1 hc
+  · rw [e.mat d] at hm'; exact e.linked .material m (hm m hm')
+  · rw [e.univ d] at hu'; exact e.linked .universe u (hu u hu')
+
+theorem GoodCell.mono {st st' : St} {d : ObjId} (h : GoodCell st d)
+    (hcell : (st'.cellOf d).surfs = (st.cellOf d).surfs ∧ (st'.cellOf d).mat = (st.cellOf d).mat ∧
+      (st'.cellOf d).univ = (st.cellOf d).univ ∧
+      ((st.cellOf d).contLinked = true → (st'.cellOf d).contLinked = true))
+    (hs : ∀ x, st.slink x = true → st'.slink x = true) (hm : ∀ x, st.mlink x = true → st'.mlink x = true)
+    (hu : ∀ x, st.ulink x = true → st'.ulink x = true) : GoodCell st' d := by
+  obtain ⟨h1, h2, h3, h4⟩ := h
+  refine ⟨hcell.2.2.2 h1, fun s hs' => ?_, fun m hm' => ?_, fun u hu' => ?_⟩
+  · rw [hcell.1] at hs'; exact hs s (h2 s hs')
+  · rw [hcell.2.1] at hm'; exact hm m (h3 m hm')
+  · rw [hcell.2.2.1] at hu'; exact hu u (h4 u hu')
+
+theorem goodCell_linkCell_self (st : St) (o : ObjId) : GoodCell (st.linkCell o) o := by
+  refine ⟨?_, ?_, ?_, ?_⟩
+  · simp [St.linkCell]
+  · intro s hs
+    have : s ∈ (st.cellOf o).surfs := by simpa [St.linkCell] using hs
+    simp [St.linkCell, this]
+  · intro m hm
+    have : (st.cellOf o).mat = some m := by simpa [St.linkCell] using hm
+    simp [St.linkCell, this]
+  · intro u hu
+    have : (st.cellOf o).univ = some u := by simpa [St.linkCell] using hu
+    simp [St.linkCell, this]
+
+theorem goodCell_setUniverse (st : St) (c u d : ObjId) (h : GoodCell st d) (hl : d = c → (st.cellOf c).link = true) :
+    GoodCell (setUniverse st c u).1 d := by
+  obtain ⟨h1, h2, h3, h4⟩ := h
+  unfold GoodCell setUniverse
+  simp only [updCell_cellOf]
+  by_cases hdc : d = c
+  · subst hdc
+    simp only [if_true]
+    refine ⟨h1, h2, h3, fun u' hu' => ?_⟩
+    have : u = u' := by simpa using hu'
+    subst this
+    simp [hl rfl]
+  · simp only [hdc, if_false]
+    refine ⟨h1, h2, h3, fun u' hu' => ?_⟩
+    split
+    · rfl
+    · exact h4 u' hu'
+
+theorem goodCell_setMaterial (st : St) (c : ObjId) (m : Option ObjId) (d : ObjId) (h : GoodCell st d)
+    (hl : d = c → (st.cellOf c).link = true) : GoodCell (setMaterial st c m).1 d := by
+  obtain ⟨h1, h2, h3, h4⟩ := h
+  unfold GoodCell setMaterial
+  simp only [updCell_cellOf]
+  by_cases hdc : d = c
+  · subst hdc
+    simp only [if_true]
+    refine ⟨h1, h2, fun m' hm' => ?_, h4⟩
+    subst hm'
+    simp [hl rfl]
+  · simp only [hdc, if_false]
+    refine ⟨h1, h2, fun m' hm' => ?_, h4⟩
+    split
+    · rfl
+    · exact h3 m' hm'
+
+theorem reach_setUniverse (st : St) (c u : ObjId) (h : Reach st) : Reach (setUniverse st c u).1 :=
+  ⟨h.contain.same (same_setUniverse st c u), h.linked.ext (setUniverse_linkExt st c u),
+   fun d hd => goodCell_setUniverse st c u d (h.good d hd) (fun e => by subst e; exact h.linked .cell d hd)⟩
+
+theorem reach_foldl_setUniverse (u : ObjId) : ∀ (cs : List ObjId) (st : St), Reach st →
+    Reach (cs.foldl (fun s c => (setUniverse s c u).1) st) := by
+  intro cs
+  induction cs with
+  | nil => intro st h; exact h
+  | cons a t ih => intro st h; exact ih _ (reach_setUniverse st a u h)
+
+/-- folding `Cell.link_to_problem` over a list: every listed cell ends up good, nothing else moves -/
+theorem linkCells_spec : ∀ (l : List ObjId) (st : St),
+    Ext st (l.foldl (fun s c => s.setLinked .cell c) st) ∧
+    ∀ d ∈ l, GoodCell (l.foldl (fun s c => s.setLinked .cell c) st) d := by
+  intro l
+  induction l with
+  | nil => intro st; exact ⟨Ext.refl st, fun d hd => by cases hd⟩
+  | cons a t ih =>
+    intro st
+    simp only [List.foldl_cons]
+    obtain ⟨e, hg⟩ := ih (st.setLinked .cell a)
+    have e0 : Ext st (st.setLinked .cell a) := linkCell_ext st a
+    refine ⟨e0.trans e, fun d hd => ?_⟩
+    rcases List.mem_cons.mp hd with rfl | ht
+    · exact (goodCell_linkCell_self st d).pExt e.pExt
+    · exact hg d ht
+
+/-- **C16_step** — every modelled operation preserves the invariant `Reach`, also when it raises. -/
+theorem C16_step (st : St) (op : Op) (h : Reach st) : Reach (step st op).1 := by
+  refine ⟨C16_contain_step st op h.contain, C16_linked_step st op h.linked, ?_⟩
+  have geo : PExt st (step st op).1 → ∀ d ∈ (step st op).1.cells, GoodCell (step st op).1 d := by
+    intro e d hd
+    have : (step st op).1.cells = st.cells := e.members .cell
+    rw [this] at hd
+    exact (h.good d hd).pExt e
+  cases op with
+  | setGeometry c g => exact geo (geo_pExt st _ trivial)
+  | iopCell u c g => exact geo (geo_pExt st _ trivial)
+  | iopAlias u c g => exact geo (geo_pExt st _ trivial)
+  | setDivider c p ic d => exact geo (geo_pExt st _ trivial)
+  | setChild c p r g => exact geo (geo_pExt st _ trivial)
+  | reupdate => exact h.good
+  | setMaterial c m =>
+    intro d hd
+    exact goodCell_setMaterial st c m d (h.good d hd) (fun e => by subst e; exact h.linked .cell d hd)
+  | setUniverse c u => exact (reach_setUniverse st c u h).good
+  | claim u cs =>
+    simp only [step, claim]
+    split
+    · exact (reach_foldl_setUniverse u cs st h).good
+    · exact h.good
+  | setFill c u =>
+    intro d hd
+    refine (h.good d hd).mono ?_ (fun _ hx => hx) (fun _ hx => hx) (fun _ hx => hx)
+    simp only [step, setFill, updCell_cellOf]
+    split <;> (try subst_vars) <;> exact ⟨rfl, rfl, rfl, fun hx => hx⟩
+  | setNumber k o n =>
+    simp only [step, setNumber]
+    split
+    · exact h.good
+    · split
+      · exact h.good
+      · intro d hd
+        have hcells : (st.setNum k o n).cells = st.cells := by cases k <;> rfl
+        rw [hcells] at hd
+        refine (h.good d hd).mono ?_ ?_ ?_ ?_
+        · cases k <;> exact ⟨rfl, rfl, rfl, fun hx => hx⟩
+        all_goals (intro x hx; cases k <;> exact hx)
+  | append k o =>
+    simp only [step, collAppend]
+    split
+    · exact h.good
+    · cases k
+      · intro d hd
+        have e : Ext (st.setMembers .cell (st.members .cell ++ [o])) ((st.setMembers .cell (st.members .cell ++ [o])).setLinked .cell o) :=
+          linkCell_ext _ o
+        have hd' : d ∈ st.cells ++ [o] := hd
+        rcases List.mem_append.mp hd' with hd1 | hd1
+        · have hg : GoodCell (st.setMembers .cell (st.members .cell ++ [o])) d := h.good d hd1
+          exact hg.pExt e.pExt
+        · simp only [List.mem_singleton] at hd1
+          subst hd1
+          exact goodCell_linkCell_self _ d
+      · intro d hd
+        exact (h.good d hd).mono ⟨rfl, rfl, rfl, fun hx => hx⟩
+          (fun x hx => by show upd st.slink o true x = true; unfold upd; split <;> first | rfl | exact hx)
+          (fun _ hx => hx) (fun _ hx => hx)
+      · intro d hd
+        exact (h.good d hd).mono ⟨rfl, rfl, rfl, fun hx => hx⟩ (fun _ hx => hx)
+          (fun x hx => by show upd st.mlink o true x = true; unfold upd; split <;> first | rfl | exact hx)
+          (fun _ hx => hx)
+      · intro d hd
+        exact (h.good d hd).mono ⟨rfl, rfl, rfl, fun hx => hx⟩ (fun _ hx => hx) (fun _ hx => hx)
+          (fun x hx => by show upd st.ulink o true x = true; unfold upd; split <;> first | rfl | exact hx)
+      · intro d hd
+        exact (h.good d hd).mono ⟨rfl, rfl, rfl, fun hx => hx⟩ (fun _ hx => hx) (fun _ hx => hx) (fun _ hx => hx)
+  | remove k o =>
+    simp only [step, collRemove]
+    split
+    · exact h.good
+    · intro d hd
+      have hsub : d ∈ st.cells := by
+        cases k
+        · exact List.mem_of_mem_erase hd
+        all_goals exact hd
+      refine (h.good d hsub).mono ?_ ?_ ?_ ?_
+      · cases k <;> exact ⟨rfl, rfl, rfl, fun hx => hx⟩
+      all_goals (intro x hx; cases k <;> exact hx)
+  | setMaterials ms =>
+    simp only [step, setMaterials]
+    split
+    · intro d hd
+      exact (h.good d hd).mono ⟨rfl, rfl, rfl, fun hx => hx⟩ (fun _ hx => hx)
+        (fun x hx => by show (if ms.contains x then true else st.mlink x) = true; split <;> first | rfl | exact hx)
+        (fun _ hx => hx)
+    · exact h.good
+  | setCells cs =>
+    simp only [step, setCells]
+    split
+    · obtain ⟨e, hg⟩ := linkCells_spec cs { st with cells := cs }
+      intro d hd
+      have hcells : (cs.foldl (fun (s : St) c => s.setLinked .cell c) { st with cells := cs }).cells = cs := e.members .cell
+      rw [hcells] at hd
+      exact hg d hd
+    · exact h.good
+  | addCellChildren =>
+    simp only [step, addCellChildren]
+    split
+    · exact h.good
+    · intro d hd
+      exact (h.good d hd).mono ⟨rfl, rfl, rfl, fun hx => hx⟩
+        (fun x hx => by dsimp only; split <;> first | rfl | exact hx)
+        (fun x hx => by dsimp only; split <;> first | rfl | exact hx)
+        (fun _ hx => hx)
+
+/-- **C16_reachable** — induction over ALL histories of modelled operations, from any state that satisfies
+    `Reach`: the empty pool (`C16_reach_blank`) and every state `load` produces (`C16_init`). -/
+theorem C16_reachable (ops : List Op) : ∀ (st : St), Reach st → Reach (run st ops) := by
+  induction ops with
+  | nil => intro st h; exact h
+  | cons op t ih => intro st h; exact ih (step st op).1 (C16_step st op h)
+
+theorem C16_reach_blank (cnum snum mnum unum tnum : ObjId → Int) (strans : ObjId → Option ObjId) :
+    Reach (St.blank cnum snum mnum unum tnum strans) :=
+  ⟨C16_contain_blank _ _ _ _ _ _, C16_linked_blank _ _ _ _ _ _, fun d hd => by simp [St.blank] at hd⟩
 
 end MontePyVerif.Links
